@@ -43,10 +43,10 @@ def universe(T, thorough: bool):
             out.append(t)
     # sized decimal / string / enum: the cost rule of conversion_cost for these families is a separate code path
     # (two of each, so that tuples mixing different sizes of one family exist)
-    out += [DT("Decimal", 10, 2), DT("Decimal", 20, 5), DT("String", 5), DT("String", 40), DT("Enum", "a", "bb")]
+    out += [DT("Decimal", 10, 2), DT("Decimal", 20, 5), DT("String", 5), DT("String", 40), DT("Enum", "a", "bb"), DT("List", DT("Int64"))]
     if thorough:
         out += [DT("Decimal", 38, 20), DT("Enum", "x"),
-                DT("List", DT("Int64")), DT("List", DT("String")), DT("List", DT("Float"))]  # fmt: skip
+                DT("List", DT("String")), DT("List", DT("Float"))]  # fmt: skip
     return out + [DT("Const", t) for t in out]
 
 
